@@ -9,6 +9,8 @@ val fst : ('a1 * 'a2) -> 'a1
 
 val snd : ('a1 * 'a2) -> 'a2
 
+val length : 'a1 list -> nat
+
 val app : 'a1 list -> 'a1 list -> 'a1 list
 
 type uint =
@@ -38,6 +40,8 @@ module Little :
 val add : nat -> nat -> nat
 
 val mul : nat -> nat -> nat
+
+val eqb : nat -> nat -> bool
 
 val max : nat -> nat -> nat
 
@@ -77,6 +81,8 @@ module N :
  end
 
 val map : ('a1 -> 'a2) -> 'a1 list -> 'a2 list
+
+val flat_map : ('a1 -> 'a2 list) -> 'a1 list -> 'a2 list
 
 val fold_right : ('a2 -> 'a1 -> 'a1) -> 'a1 -> 'a2 list -> 'a1
 
@@ -648,4 +654,104 @@ val simple_member_target : node -> bool
 
 val k_compound_member_target : node -> bool
 
-val known_classes : node -> char list list
+val optchain_view : node -> (bool * node) option
+
+val is_optional_link : node -> bool
+
+val has_optional : node -> bool
+
+val is_oc_target : char list list -> node -> bool
+
+val spine_target : char list list -> node -> bool
+
+val spine_off : char list list -> bool -> node -> bool
+
+val strictly_inside : (node -> bool) -> node -> bool
+
+val oc_defect : char list list -> node -> bool
+
+val k_optchain_offspine : char list list -> node -> bool
+
+val known_classes : char list list -> node -> char list list
+
+val is_directive : node -> bool
+
+val directives_of : node list -> node list
+
+val after_directives : node list -> node list
+
+val list_eqb : node list -> node list -> bool
+
+val is_injected_let : char list -> node -> bool
+
+val strip_prefix : node list -> node list -> node list option
+
+val strip_injected : char list -> node list -> node list -> node list
+
+val first_span : node list -> sp option
+
+val opt_span_eqb : sp option -> sp option -> bool
+
+val stmts_dir_ok : char list -> node list -> node list -> node list -> bool
+
+val blocks_of : node -> (sp * node list) list
+
+val find_block : sp -> (sp * node list) list -> node list option
+
+val program_body : node -> node list
+
+val blocks_of_list : node list -> (sp * node list) list
+
+val directives_ok : char list -> node list -> bool -> node -> node -> bool
+
+val tag_eqb_nospan : tag -> tag -> bool
+
+val node_eqb_nospan : node -> node -> bool
+
+val assoc_str : char list -> (char list * 'a1) list -> 'a1 option
+
+val is_temp_ident : char list -> node -> char list option
+
+val subst : char list -> (char list * node) list -> node -> node
+
+val clean_rhs : node -> node
+
+val split_injected :
+  char list -> node list -> ((char list * node) list * node) option
+
+val build_env :
+  char list -> (char list * node) list -> (char list * node) list ->
+  (char list * node) list
+
+val same_receiver : char list -> node -> node -> bool
+
+val uncall : char list -> (char list * node) list -> node -> node
+
+val guard_parts : char list -> node -> (char list * node) option
+
+val mk_opt : node -> node
+
+val unguard :
+  char list -> (char list * node) list -> char list -> node -> node
+
+val collapse_seq : char list -> node list -> node option
+
+val unarrow : node -> node
+
+val strip_let : char list -> node list -> node list
+
+val post : char list -> node -> node
+
+val erase_node : char list -> node -> node
+
+val strip_prologue : node list -> node list -> node list
+
+val erase : char list -> node list -> bool -> node -> node
+
+val lower_post : bool -> node -> node
+
+val lower : bool -> node -> node
+
+val erase_ok : char list -> node list -> bool -> bool -> node -> node -> bool
+
+val first_diff_nospan : node -> node -> nat list option
